@@ -3,7 +3,7 @@ recognise the (narrow) signatures of the open findings listed in known_findings.
 
 PROPS = {}
 NOT_CLAIMED = {}
-HOOK_COMMITS = ["16a14b9"]
+HOOK_COMMITS = ["16a14b9", "e75c637"]
 
 PROPS["C05"] = dict(
     level_text="Bounded-exhaustive model checking of the reader state machine against the reference tokenisation over all inputs up to K "
@@ -41,7 +41,10 @@ PROPS["C04"] = dict(
     trace_chunk=400,
     # second recorded-run stage: whole xargs runs against the composed specification XargsSem (real input bytes through the
     # reference tokenisation / -0 / -d splitting, batching, argv = initial arguments + batch, children's outcomes -> exit status)
-    more=[dict(record_vh="XSEM", record=dict(quick=500, thorough=10000), trace=dict(module="trace/T_XSem.tla", cfg="trace/T_XSem.cfg"), trace_chunk=500)],
+    more=[dict(record_vh="XSEM", record=dict(quick=500, thorough=10000), trace=dict(module="trace/T_XSem.tla", cfg="trace/T_XSem.cfg"), trace_chunk=500),
+          # third stage: event-level traces of the loop itself (binary built with the verification hook): the limiter counters after
+          # every step, every dispatch and the exit status must be a behaviour of XargsBatchImpl + XargsExec
+          dict(record_vh="XLOOP", record=dict(quick=160, thorough=3000), trace=dict(module="trace/T_XLoop.tla", cfg="trace/T_XLoop.cfg"), trace_chunk=40)],
     rule="MC: all argument sequences up to MAXARGS over lengths LENS x line-end flags x n x L x s x -x x -r x system budget; "
          "vectors = those inputs with the system budget not binding; trace: random sequences (0..3000 arguments, lengths 1..60, "
          "varied separators incl. blank-before-newline continuation), options drawn at random.",
@@ -57,6 +60,8 @@ PROPS["C19"] = dict(
     record=dict(quick=300, thorough=5000),
     selftest=dict(quick=30, thorough=100),
     trace=dict(module="trace/T_C19.tla", cfg="trace/T_C19.cfg"),
+    # event-level traces of the loop (dispatches, early return on a fatal outcome, exit status) against XargsBatchImpl + XargsExec
+    more=[dict(record_vh="XLOOP", record=dict(quick=120, thorough=2000), trace=dict(module="trace/T_XLoop.tla", cfg="trace/T_XLoop.cfg"), trace_chunk=40)],
     rule="MC: every sequence of child outcomes (0, 1..125, 255, killed by signal) up to MAXLEN; trace: random scripts up to 200 invocations with -n 1..3, "
          "missing / non-executable command, bad option values, unterminated quote, oversize argument.",
     exhaustive_note="bounded-exhaustive",
@@ -371,6 +376,9 @@ PROPS["C06"] = dict(
     trace_chunk=200,
     calibration="is_probe",
     jobs=4,
+    # event-level traces: the system limiter's counter (bytes + terminator + pointer per string, from the base the initial arguments
+    # leave) after every step, under stack limits that make it the binding one
+    more=[dict(record_vh="XLOOP", record=dict(quick=120, thorough=2000), trace=dict(module="trace/T_XLoop.tla", cfg="trace/T_XLoop.cfg"), trace_chunk=40)],
     rule="MC: all argument sequences up to MAXARGS over lengths {1,2,7} x 6 stack limits x 3 environment sizes (scaled: pointer 4, ARGMIN 64, cap 96, "
          "per-string 16, headroom 8); trace: 10 scenario families x environments x stack limits x {no option, -n 1000, -s 100000}; every fourth "
          "record a direct execve probe.",
